@@ -53,6 +53,29 @@ def _install_once():
     transit.Connection.callLater = lambda self, period, func: _current_reactor().callLater(period, func)
     ipaddrs.find_addresses = lambda: list(CURRENT[0].local_addresses)
     transit.allocate_tcp_port = lambda: _current_reactor().alloc_port()
+    # autobahn's factories call random.seed() (OS entropy) in __init__, which would make the
+    # ClientService jitter and the frame masks differ from run to run: neutralise the reseed
+    import autobahn.websocket.protocol as _awp
+
+    class _RandomProxy:
+        def __getattr__(self, name):
+            return getattr(random, name)
+
+        def seed(self, *a, **kw):
+            if a or kw:
+                random.seed(*a, **kw)
+    _awp.random = _RandomProxy()
+    # the servers stamp messages with wall-clock floats whose repr length varies: use virtual time
+    vtime = types.SimpleNamespace(time=lambda: 1700000000.0 + _current_reactor().seconds())
+    server_websocket.time = vtime
+    import wormhole_mailbox_server.server as _srv
+    if hasattr(_srv, "time"):
+        _srv.time = vtime
+    try:
+        import wormhole_transit_relay.transit_server as _ts
+        _ts.time = vtime
+    except ImportError:
+        pass
 
 
 class AdvServerProtocol(server_websocket.WebSocketServer):
